@@ -31,7 +31,7 @@ def own_attr(v, D):
     k, o = v["kind"], v["own"]
     f0 = "x" if k == "n1" else "_0"
     if o == "none":
-        return ""
+        return f'#[{a}(rename_all = "UPPERCASE")] ' if v.get("vr") else ""
     if o == "text":
         return f'#[{a}("txt")] '
     if o == "bare":
@@ -57,12 +57,12 @@ def shared_attr(s, D):
 def variant_decl(i, v, D):
     k = v["kind"]
     body = {"unit": "", "t1": "(i32)", "n1": " { x: i32 }", "t2": "(i32, i32)"}[k]
-    return f"{own_attr(v, D)}V{i}{body}"
+    return f"{own_attr(v, D)}Va{i}{body}"
 
 
 def value(i, v):
     k = v["kind"]
-    return {"unit": f"En::V{i}", "t1": f"En::V{i}(255)", "n1": f"En::V{i} {{ x: 254 }}", "t2": f"En::V{i}(255, 253)"}[k]
+    return {"unit": f"En::Va{i}", "t1": f"En::Va{i}(255)", "n1": f"En::Va{i} {{ x: 254 }}", "t2": f"En::Va{i}(255, 253)"}[k]
 
 
 def show(n, D):
@@ -75,7 +75,11 @@ def expected(tokens, i, v, D):
         if t.startswith("T:"):
             out.append(t[2:])
         elif t == "NAME":
-            out.append(f"V{i}")
+            out.append(f"Va{i}")
+        elif t == "NAME_L":
+            out.append(f"va{i}")
+        elif t == "NAME_U":
+            out.append(f"VA{i}")
         elif t == "F0":
             out.append(show(VALS[v["kind"]][0], D))
         elif t == "F1":
@@ -86,13 +90,15 @@ def expected(tokens, i, v, D):
 
 
 def key_of(c):
-    return f"{c['D']}|{c['s']}|" + ",".join(f"{v['kind']}:{v['own']}" for v in c["vs"])
+    return f"{c['D']}|{c['s']}|{'lower|' if c['er'] == 'lower' else ''}" + ",".join(
+        f"{v['kind']}:{v['own']}{'^' if v['vr'] else ''}" for v in c["vs"])
 
 
 def decl(c):
     D = c["D"]
     vs = ", ".join(variant_decl(i, v, D) for i, v in enumerate(c["vs"]))
-    return f"#[derive(derive_more::{D})]\n{shared_attr(c['s'], D)}pub enum En {{ {vs} }}"
+    ren = f'#[{ATTR[D]}(rename_all = "lowercase")]\n' if c["er"] == "lower" else ""
+    return f"#[derive(derive_more::{D})]\n{shared_attr(c['s'], D)}{ren}pub enum En {{ {vs} }}"
 
 
 def module(c, key):
@@ -103,7 +109,8 @@ def module(c, key):
 
 def run(chk, tier, seed, replay):
     chk.assumptions += ["variant shapes: unit, one tuple field, one named field, two tuple fields; own attribute: none, "
-                        "text+fields, bare field placeholder, text only; 14 enum-level forms; field values are integers"]
+                        "text+fields, bare field placeholder, text only, rename_all (unit variants); 14 enum-level forms x enum-level "
+                        "rename_all; field values are integers"]
     r = vlib.run_tlc("MC_FmtShared", f"MC_FmtShared_{tier}", workers=8, timeout=1800, xmx="6g")
     chk.add_tlc(r, "enums x shared forms x traits")
     if not r.ok:
